@@ -432,12 +432,16 @@ def _finish(run, cs, name, items, rule, nontrivial_of, dist):
         dis = id(meta) in failing_ids
         if dis or clauses:
             view = None
-            if dis:
+            key = f"{name}-" + ("+".join(sorted({c.split(':')[0] for c in clauses})) or "model-disagrees")
+            seen_keys = run.extra.setdefault("violation_keys", [])
+            if key in seen_keys:
+                continue                # one replay per key (the first input that shows it)
+            seen_keys.append(key)
+            if dis and len(seen_keys) <= 3:
                 try:
                     view = cs.model_view(term)
                 except Exception as e:  # noqa
                     view = repr(e)
-            key = f"{name}-" + ("+".join(sorted({c.split(':')[0] for c in clauses})) or "model-disagrees")
             rp = dict(rp)
             rp.update({"clause": clauses or ["the batch differs from the one the model computes on the same input"],
                        "part": name, "meta": meta, "model_view": view, "oracle_violations": clauses,
